@@ -11,7 +11,7 @@
     is definitional here; the independence of the two Rust objects is a differential check
     ([clone] lines of the scripts), stated as such in DESIGN.md. *)
 From Coq Require Import List NArith Bool Permutation.
-From PT Require Import Lookup2 Mutate Refine EqClone.
+From PT Require Import Lookup2 Mutate Refine EqClone Arena Arena2 ArenaProps ArenaWrite ArenaEq.
 From PT.Properties Require Import Common.
 Import ListNotations.
 
@@ -112,6 +112,66 @@ Proof.
   rewrite !t_map_eq_entries. unfold map_eq. rewrite E. reflexivity.
 Qed.
 
+(* ---------------------------------------------------------------------------------------- *)
+(** * The same statements about the ARENA-level transcription (ArenaEq.v): [==] drains the two arena
+      iterators and compares them pairwise; [clone] copies table, free list and counter; [a], [b] are
+      arenas reachable from the empty arena by histories over the whole mutator alphabet. *)
+Notation aeq := (a_map_eq pfx V prepr_eq veq).
+
+(** [==] never panics, and holds exactly when the two iterations are the same list — whatever the
+    tables, free lists and counters look like *)
+Theorem C19_arena_eq (a b : Arena.amap pfx V) ea eb : areach pfx V (peq w) (contains w fl) (is_bit_set w) plen (lcp w fl) pzero (okp w) a -> areach pfx V (peq w) (contains w fl) (is_bit_set w) plen (lcp w fl) pzero (okp w) b ->
+  Arena.a_entries pfx V a = Arena.Ok ea -> Arena.a_entries pfx V b = Arena.Ok eb ->
+  exists r, aeq a b = Arena.Ok r /\ (r = true <-> ea = eb).
+Proof.
+  intros Ha Hb. apply (arena_C19_eq pfx V (kbits w) (okp w) prepr_eq veq prepr_eq_spec veq_spec).
+  - exact (ArenaWrite.areach_good pfx V _ _ _ _ _ _ _ _ _ (laws w fl Hw) a Ha).
+  - exact (ArenaWrite.areach_good pfx V _ _ _ _ _ _ _ _ _ (laws w fl Hw) b Hb).
+Qed.
+
+Theorem C19_arena_equivalence (a b c : Arena.amap pfx V) : areach pfx V (peq w) (contains w fl) (is_bit_set w) plen (lcp w fl) pzero (okp w) a -> areach pfx V (peq w) (contains w fl) (is_bit_set w) plen (lcp w fl) pzero (okp w) b -> areach pfx V (peq w) (contains w fl) (is_bit_set w) plen (lcp w fl) pzero (okp w) c ->
+  aeq a a = Arena.Ok true /\ aeq a b = aeq b a /\
+  (aeq a b = Arena.Ok true -> aeq b c = Arena.Ok true -> aeq a c = Arena.Ok true).
+Proof.
+  intros Ha Hb Hc.
+  pose proof (ArenaWrite.areach_good pfx V _ _ _ _ _ _ _ _ _ (laws w fl Hw) a Ha) as Ga.
+  pose proof (ArenaWrite.areach_good pfx V _ _ _ _ _ _ _ _ _ (laws w fl Hw) b Hb) as Gb.
+  pose proof (ArenaWrite.areach_good pfx V _ _ _ _ _ _ _ _ _ (laws w fl Hw) c Hc) as Gc.
+  split; [exact (arena_C19_refl pfx V (peq w) (contains w fl) (is_bit_set w) plen (lcp w fl) pzero (kbits w) (okp w) prepr_eq veq prepr_eq_spec veq_spec a Ga)|].
+  split; [exact (arena_C19_sym pfx V (peq w) (contains w fl) (is_bit_set w) plen (lcp w fl) pzero (kbits w) (okp w) prepr_eq veq prepr_eq_spec veq_spec a b Ga Gb)|].
+  exact (arena_C19_trans pfx V (peq w) (contains w fl) (is_bit_set w) plen (lcp w fl) pzero (kbits w) (okp w) prepr_eq veq prepr_eq_spec veq_spec a b c Ga Gb Gc).
+Qed.
+
+Theorem C19_arena_clone (a : Arena.amap pfx V) : areach pfx V (peq w) (contains w fl) (is_bit_set w) plen (lcp w fl) pzero (okp w) a ->
+  Arena.a_entries pfx V (a_clone pfx V a) = Arena.a_entries pfx V a /\
+  aeq (a_clone pfx V a) a = Arena.Ok true /\ aeq a (a_clone pfx V a) = Arena.Ok true.
+Proof.
+  intros Ha.
+  pose proof (ArenaWrite.areach_good pfx V _ _ _ _ _ _ _ _ _ (laws w fl Hw) a Ha) as Ga.
+  destruct (arena_C19_clone pfx V (peq w) (contains w fl) (is_bit_set w) plen (lcp w fl) pzero (kbits w) (okp w) prepr_eq veq prepr_eq_spec veq_spec a Ga)
+    as (_ & E1 & E2 & E3). auto.
+Qed.
+
+Theorem C19_arena_differs (a b : Arena.amap pfx V) ea eb : areach pfx V (peq w) (contains w fl) (is_bit_set w) plen (lcp w fl) pzero (okp w) a -> areach pfx V (peq w) (contains w fl) (is_bit_set w) plen (lcp w fl) pzero (okp w) b ->
+  Arena.a_entries pfx V a = Arena.Ok ea -> Arena.a_entries pfx V b = Arena.Ok eb -> ea <> eb ->
+  aeq a b = Arena.Ok false.
+Proof.
+  intros Ha Hb. apply (arena_C19_differs pfx V (kbits w) (okp w) prepr_eq veq prepr_eq_spec veq_spec).
+  - exact (ArenaWrite.areach_good pfx V _ _ _ _ _ _ _ _ _ (laws w fl Hw) a Ha).
+  - exact (ArenaWrite.areach_good pfx V _ _ _ _ _ _ _ _ _ (laws w fl Hw) b Hb).
+Qed.
+
+(** rebuilding ([collect], deserialisation: repeated arena-level [insert]) from the entries in ANY
+    order: runs without panic and yields an arena equal to the original in both directions *)
+Theorem C19_arena_rebuild (a : Arena.amap pfx V) es es' : areach pfx V (peq w) (contains w fl) (is_bit_set w) plen (lcp w fl) pzero (okp w) a ->
+  Arena.a_entries pfx V a = Arena.Ok es -> Permutation es' es ->
+  exists b, Arena2.a_run2 pfx V (peq w) (contains w fl) (is_bit_set w) plen (lcp w fl) pzero (ins_ops pfx V es') = Arena.Ok b /\
+            areach pfx V (peq w) (contains w fl) (is_bit_set w) plen (lcp w fl) pzero (okp w) b /\ Arena.a_entries pfx V b = Arena.Ok es /\ aeq b a = Arena.Ok true /\ aeq a b = Arena.Ok true.
+Proof.
+  exact (arena_C19_rebuild pfx V (peq w) (contains w fl) (is_bit_set w) plen (lcp w fl) pzero (mcmp w) (kbits w) (okp w)
+           (laws w fl Hw) prepr_eq veq prepr_eq_spec veq_spec a es es').
+Qed.
+
 End C19.
 
 (** non-vacuity: same entries reached by different histories (one leaves a value-less leftover
@@ -139,3 +199,8 @@ Print Assumptions C19_rebuild.
 Print Assumptions C19_rebuild_congruent.
 Print Assumptions prepr_eq_spec.
 Print Assumptions t_map_eq_entries.
+Print Assumptions C19_arena_eq.
+Print Assumptions C19_arena_equivalence.
+Print Assumptions C19_arena_clone.
+Print Assumptions C19_arena_differs.
+Print Assumptions C19_arena_rebuild.
